@@ -943,6 +943,9 @@ class Query(Runner):
                 index = None
             # explicitly convert to int to provoke an error otherwise
             total_pages = sys.maxsize if params.get("pages") == "all" else int(mandatory(params, "pages", self))
+            # the body is shared with the previous invocation which leaves its cursor behind unless it has retrieved all results
+            for item in ["pit", "search_after"]:
+                body.pop(item, None)
             for page in range(1, total_pages + 1):
                 if pit_op:
                     pit_id = CompositeContext.get(pit_op)
@@ -993,6 +996,10 @@ class Query(Runner):
                 index = None
             # explicitly convert to int to provoke an error otherwise
             total_pages = sys.maxsize if params.get("pages", "all") == "all" else int(mandatory(params, "pages", self))
+            # the body is shared with the previous invocation which leaves its cursor behind unless it has retrieved all results
+            body.pop("pit", None)
+            for path in paths_to_composite_agg(body, []):
+                resolve_composite_agg(body, path).pop("after", None)
             for page in range(1, total_pages + 1):
                 if pit_op:
                     pit_id = CompositeContext.get(pit_op)
